@@ -29,6 +29,8 @@ def run(check):
         holder['al'] = rule_inputs_not_mutated(c, 'C16.R1')
     check.run_rule('C16.R1', r1)
     check.run_rule('C16.R2', lambda c: rule_results_not_shared(c, 'C16.R2', holder.get('al')))
+    from ..rules_classes import rule_replace_returns_fresh
+    check.run_rule('C16.R2b', lambda c: rule_replace_returns_fresh(c, 'C16.R2'))
     check.run_rule('C16.R3', lambda c: rule_cm_window(c, {'restore': 'C16.R3', 'typestate': 'C16.R3', 'usage': 'C16.R3', 'confined': None}))
     from ..rules_windows import rule_cm_saves_raw_entry
     check.run_rule('C16.R3r', lambda c: rule_cm_saves_raw_entry(c, 'C16.R3'))
